@@ -62,7 +62,7 @@ PROPS = {
         level_note="Trusted: pqref's shredder/assembler (written from the Dremel definitions, self-tested as inverses) and page parser.",
         fixtures=["flat24", "nest", "tiny", "deep", "samename", "rep3", "rep3b", "reqopt", "dupleaf"],
         gen_anchored=True,
-        stages=[dict(test="TestC03", kind="rapid", quick=2400, thorough=48000)],
+        stages=[dict(test="TestC03", kind="rapid", quick=2400, thorough=48000), dict(test="TestC03MiB", kind="enum", quick=1, thorough=1, shards=3)],
         replay="TestReplayC03",
         rule="rapid-generated workloads (as C01, <= 60 records, lists <= 300) on fixtures flat24, nest (repeated-in-repeated, optional group with "
              "repeated group), tiny, deep, samename; for every row group and column the (rep, def, value) entries decoded from the pages by pqref "
